@@ -26,14 +26,14 @@ META = dict(
     rule="gross_range_test: every (fail span, suspect span) over {0,1,2,3}^2 x ({None}+{0,1,2,3}^2) (both orders, "
          "degenerate, not-nested ones must raise ValueError), span as list and tuple, x product series of 10 values "
          "(below/on/between/above every bound, NaN) in 3 orders + every series of length<=N; valid_range_test: every "
-         "span over ({None,0,1,2,3})^2 as given x 4 inclusivity settings (+defaults) on the same series, float32/float16 data against non-dyadic limits (flags follow the exact values), 2-D inputs in C / Fortran / "
+         "span over ({None,0,1,2,3})^2 as given x 4 inclusivity settings (+defaults) on the same series, integer-typed data with open and closed spans, float32/float16 data against non-dyadic limits (flags follow the exact values), 2-D inputs in C / Fortran / "
          "transposed layout (flags stay with their elements), and the "
          "datetime64 variant (6 instants incl. NaT, spans over {None,t0,t1}^2). Each state = one call of the real "
          "function, judged per point by the scalar reference. non-trivial = reference demands SUSPECT/FAIL/MISSING "
          "or ValueError",
     bounds={"quick": {"max_len": 2, "values": list(VALS), "bounds": list(B)},
             "thorough": {"max_len": 4, "values": list(VALS), "bounds": list(B)}},
-    not_judged=["integer-dtype data with a None bound", "malformed spans (length != 2)"],
+    not_judged=["malformed spans (length != 2)"],
     assumptions=["values are region representatives: one below, on, between and above every bound"],
 )
 
@@ -49,7 +49,7 @@ F32B = (0.1, 0.9, 5.3)
 
 def tasks(tier):
     n = NMAX[tier]
-    ts = [("f32",), ("layout",)]
+    ts = [("f32",), ("layout",), ("valid_int",)]
     for f in itertools.product(B, repeat=2):
         ts.append(("gross", list(f), n))
     for lo in (None,) + B:
@@ -106,6 +106,20 @@ def check_case(case):
         if got.shape != base.shape or not np.array_equal(got, exp):
             vs.append(dict(signature=f"{PROP}|{case['which']}|2d-{case['order']}|symptom=flags-misplaced", what=f"{case['which']} range test on a 2-D {case['order']}-ordered array puts flags on the wrong elements", expected=exp.tolist(), observed=got.tolist()))
         return vs, True, tuple(got.reshape(-1).tolist()), 0
+    if fn == "valid_int":
+        # integer data (no missing values possible) with open / closed spans
+        x = case["x"]
+        kw = {}
+        if case["incl"] is not None:
+            kw = dict(start_inclusive=case["incl"][0], end_inclusive=case["incl"][1])
+        si, ei = case["incl"] if case["incl"] is not None else (True, False)
+        lo = None if case["lo"] is None else int(case["lo"])
+        hi = None if case["hi"] is None else int(case["hi"])
+        out = alpha.call(axds.valid_range_test, np.array(x, dtype=case["dtype"]), [lo, hi], **kw)
+        acceptable = R.valid_range([float(v) for v in x], lo, hi, si, ei)
+        opened = "open" if (lo is None or hi is None) else "closed"
+        vs, obs = judge_flags(PROP, "valid_range_test", out, acceptable, len(x), extra_sig=f"integer-data|{opened}-span", classify=lambda i: "value")
+        return vs, True, obs, 0
     if fn == "valid":
         x = case["x"]
         kw = {}
@@ -175,6 +189,17 @@ def run_task(task, acc):
                         for x in (series_space(n) if sc == "list" else PRODUCT[:1]):
                             yield dict(fn="valid", x=x, lo=lo, hi=hi, incl=None if incl is None else list(incl), span_carrier=sc)
 
+        run_cases(acc, gen(), check_case)
+    elif kind == "valid_int":
+        def gen():
+            xs = [-1, 0, 1, 2, 3, 4]
+            for dt_ in ("int32", "int64", "uint8"):
+                vals = [v for v in xs if not (dt_ == "uint8" and v < 0)]
+                for lo in (None, 0, 1, 3):
+                    for hi in (None, 0, 2, 3):
+                        for incl in INCL:
+                            yield dict(fn="valid_int", x=vals, dtype=dt_, lo=lo, hi=hi, incl=None if incl is None else list(incl))
+                            yield dict(fn="valid_int", x=list(reversed(vals))[:3], dtype=dt_, lo=lo, hi=hi, incl=None if incl is None else list(incl))
         run_cases(acc, gen(), check_case)
     elif kind == "f32":
         def gen():
